@@ -187,6 +187,24 @@ func (c *c19Mon) scenario(sc *StepCtx) {
 		}
 	}
 
+	// 3b. the same through the application module (module.go): export as JSON, validate the
+	// JSON, and - when it can be read back - import it below through the module as well
+	am := service.NewAppModule(cdc, k, w.a.app.AccountKeeper, w.a.app.BankKeeper)
+	var modJSON []byte
+	if pan, _ := guard(func() { modJSON = am.ExportGenesis(ctx, cdc) }); pan != "" {
+		m.fail(sc, "C19", "export-completes", "module", "AppModule.ExportGenesis panicked: %s", pan)
+	} else {
+		m.hit("C19", "module-export", "")
+		if !bytes.Equal(compactJSON(modJSON), compactJSON(bz)) {
+			m.fail(sc, "C19", "import-export-identity", "module-export-differs", "AppModule.ExportGenesis does not write the genesis that ExportGenesis returns")
+		}
+		if imp == &gs2 {
+			if err := am.ValidateGenesis(cdc, nil, modJSON); err != nil {
+				m.fail(sc, "C19", "export-validates", "module:"+valClass(err.Error()), "AppModule.ValidateGenesis rejects the exported genesis: %v", err)
+			}
+		}
+	}
+
 	// 4. import into a fresh chain, export again
 	if c.spare == nil {
 		c.spare = NewApp()
@@ -194,7 +212,13 @@ func (c *c19Mon) scenario(sc *StepCtx) {
 	w2 := &World{a: c.spare, height: w.height, now: w.now, tracked: map[string]string{}, actors: map[string]sdk.AccAddress{}}
 	ctx2, _ := c.spare.baseCtx.CacheContext()
 	w2.ctx = ctx2
-	if pan, site := guard(func() { service.InitGenesis(ctx2, c.spare.k, *imp) }); pan != "" {
+	importer := func() { service.InitGenesis(ctx2, c.spare.k, *imp) }
+	if imp == &gs2 && modJSON != nil && sc.Idx%2 == 0 {
+		am2 := service.NewAppModule(cdc, c.spare.k, c.spare.app.AccountKeeper, c.spare.app.BankKeeper)
+		importer = func() { am2.InitGenesis(ctx2, cdc, modJSON) }
+		m.hit("C19", "module-import", "")
+	}
+	if pan, site := guard(importer); pan != "" {
 		m.fail(sc, "C19", "import-completes", site+":"+valClass(pan), "importing the exported genesis panicked: %s", pan)
 		return
 	}
